@@ -40,6 +40,8 @@ def jdump(obj, path):
 class Ctx:
     def __init__(self, pid, tier, seed):
         self.pid, self.tier, self.seed = pid, tier, seed
+        global CURRENT_CTX
+        CURRENT_CTX = self
         self.quick = tier == 'quick'
         self.t0 = time.time()
         self.tmp = tempfile.mkdtemp(prefix=f'verif_{pid}_')
@@ -191,12 +193,50 @@ def tlc_sharded(ctx, module, template, nshards, part, threads=8, **kw):
         return [f.result() for f in futs]
 
 
-def pmap(fn, items, procs=16, chunksize=64):
+CURRENT_CTX = None
+
+
+class _Guarded:
+    """picklable wrapper: an exception that travelled through photutils code is the implementation's, not the harness's - it is returned
+    as a marker and reported as a violation (`implementation_raises`) instead of aborting the run as a machinery failure"""
+
+    def __init__(self, fn):
+        self.fn = fn
+
+    def __call__(self, x):
+        try:
+            return self.fn(x)
+        except Exception as e:  # noqa
+            import traceback
+            tb = traceback.extract_tb(e.__traceback__)
+            if not any('/photutils/' in fr.filename for fr in tb):
+                raise
+            where = [f'{fr.filename.split("/photutils/")[-1]}:{fr.lineno}' for fr in tb if '/photutils/' in fr.filename][-1]
+            return {'__impl_raise__': True, 'fn': getattr(self.fn, '__name__', str(self.fn)), 'exc': type(e).__name__, 'msg': str(e)[:300], 'where': where,
+                    'arg': repr(x)[:600]}
+
+
+def pmap(fn, items, procs=16, chunksize=64, on_raise='empty'):
+    """map over a fork pool.  on_raise: what stands in for an item whose evaluation raised inside photutils ('empty' -> [], 'drop' -> omitted);
+    every such item is reported as a violation of the running check"""
     import multiprocessing as mp
+    g = _Guarded(fn)
     if len(items) < 64 or procs == 1:
-        return [fn(x) for x in items]
-    with mp.get_context('fork').Pool(procs) as pool:
-        return pool.map(fn, items, chunksize=chunksize)
+        res = [g(x) for x in items]
+    else:
+        with mp.get_context('fork').Pool(procs) as pool:
+            res = pool.map(g, items, chunksize=chunksize)
+    out = []
+    for r in res:
+        if isinstance(r, dict) and r.get('__impl_raise__'):
+            if CURRENT_CTX is not None:
+                CURRENT_CTX.violation('implementation_raises', {'in': r['fn'], 'exc': r['exc'], 'where': r['where'].split(':')[0]},
+                                      {'message': r['msg'], 'where': r['where'], 'argument': r['arg']})
+            if on_raise == 'empty':
+                out.append([])
+            continue
+        out.append(r)
+    return out
 
 
 def validate_batch(ctx, module, cases, part, shards=16, env=None, timeout=900):
